@@ -148,7 +148,7 @@ def main():
             replay_result(bool(pr), pr[:2])
         if REPLAY is not None and REPLAY.get("kind") == "e2e":
             import c03_e2e
-            pr = c03_e2e.burst(REPLAY["rootkind"], REPLAY.get("which", "rename")) if REPLAY["op"] == "burst" else c03_e2e.run_op(REPLAY["op"], REPLAY["recursive"])
+            pr = c03_e2e.burst(REPLAY["rootkind"], REPLAY.get("which", "rename")) if REPLAY["op"] == "burst" else c03_e2e.run_op(REPLAY["op"], REPLAY["recursive"], REPLAY.get("split", False))
             replay_result(bool(pr), pr[:2])
         if REPLAY is not None and REPLAY.get("kind") == "phantom":
             pr = phantom()
@@ -196,10 +196,11 @@ def main():
                 if WHICH == "C19" and "directory" not in name:
                     continue
                 for recursive in ((True, False) if WHICH == "C03" else (True,)):
-                    bat.case(("e2e", name, recursive))
-                    pr = c03_e2e.run_op(name, recursive)
-                    if pr:
-                        bat.fail(f"{WHICH}.per-operation-contract", pr[0], {"kind": "e2e", "op": name, "recursive": recursive, "problems": pr[:2]}, "InotifyEmitter.queue_events")
+                    for split in ((False, True) if (WHICH == "C03" and recursive and name.startswith("rename")) else (False,)):
+                        bat.case(("e2e", name, recursive, split))
+                        pr = c03_e2e.run_op(name, recursive, split)
+                        if pr:
+                            bat.fail(f"{WHICH}.per-operation-contract", pr[0], {"kind": "e2e", "op": name, "recursive": recursive, "split": split, "problems": pr[:2]}, "InotifyEmitter.queue_events")
         if WHICH == "C03":
             bat.case("phantom-after-move-out")
             pr = phantom()
